@@ -97,7 +97,7 @@ def gen_cfg(rng, combo=None, finite=None, n_max=12, allow_not_random=True, u=Non
     elif estim == "optimal_comparison" and rng.random() < 0.1:
         u = rng.choice((0.9375, 0.75, 1.0))
     if t is None:
-        t = 0.5 if rng.random() < 0.7 else rng.choice((0.25, 0.375, 0.625, 0.75))
+        t = 0.5 if rng.random() < 0.7 else rng.choice((0.25, 0.375, 0.625, 0.75, 0.125))
         if t >= u:
             t = 0.5
     if test in ("kaplan_markov", "kaplan_wald"):
@@ -204,6 +204,21 @@ def gen_mu_tiny(rng, cfg, cap):
         if len(x) < N:
             x.append(0.0)
     return x[:cap]
+
+
+def gen_early_wins_census(rng, cfg):
+    """Finite N, composite null far below t: a few early draws above the null mean (an adaptive bet wins), then zeros all
+    the way to the census, so that the null conditional mean climbs above u while the statistic is still above 1."""
+    u, t = cfg["u"], cfg["t"]
+    N = cfgN(cfg)
+    if not math.isfinite(N) or N < 6:
+        return None
+    k = rng.randint(1, 4)
+    x = [rng.choice((2 * t, u, u / 2, 1.5 * t)) for _ in range(k)]
+    x = [min(u, v) for v in x]
+    if sum(x) > N * t:
+        return None
+    return x + [0.0] * (N - k)
 
 
 def gen_sample(rng, cfg, stratum=None, n_max=12, nondyadic=0.0):
